@@ -55,6 +55,7 @@ let run path =
      every minor collection scans it, so keep minor collections rare (256 MiB minor heap) *)
   Gc.set { (Gc.get ()) with Gc.minor_heap_size = 32 * 1024 * 1024 };
   let cases = Hashtbl.create 1024 in
+  let done_cases : (string, Packet.packet * Byte.byte list) Hashtbl.t = Hashtbl.create 1024 in
   let n = ref 0 and bad = ref 0 in
   let seen = Hashtbl.create 4096 in
   let distinct = ref 0 in
@@ -71,110 +72,118 @@ let run path =
       Hashtbl.remove cases k;
       let p = packet_of_s text in
       let wf = WF.wf p in
-      let spec = WireSpec.wire_spec p in
-      let spec_hex = hex_of_bytes spec in
-      let mlen = Enc.len_go p in
       let tname = L.hd (split ':' text) in
+      let short_text = S.sub text 0 (min 160 (S.length text)) in
+      let cut s = S.sub s 0 (min 300 (S.length s)) in
       let ilen_s = field "len=" rest in
       if ilen_s = "panic" then begin
-        incr bad; Printf.printf "propfail %s encode_total Len() panicked pkt=%s\n" k (S.sub text 0 (min 200 (S.length text)))
+        incr bad; Printf.printf "propfail %s encode_total Len() panicked pkt=%s\n" k short_text
       end else begin
       let ilen = int_of_string ilen_s in
-      let short_text = S.sub text 0 (min 160 (S.length text)) in
-      (* Len *)
-      if string_of_n mlen <> ilen_s then begin
-        if wf && ilen <> L.length spec then
-          diff "propfail %s len_spec Len()=%d but the packet occupies %d bytes on the wire pkt=%s\n" k ilen (L.length spec) short_text
-        else diff "diff %s len model=%s impl=%d pkt=%s\n" k (string_of_n mlen) ilen short_text end
-      else if wf && ilen <> L.length spec then
-        diff "propfail %s len_spec Len()=%d but the packet occupies %d bytes on the wire pkt=%s\n" k ilen (L.length spec) short_text;
-      (* Encode into exactly Len() bytes (the implementation's Len) *)
-      let cap = n_of_int ilen in
+      let fill = byte_of_int fillb in
+      (* ---- the observation, as the judges of Codec/EncJudge.v take it ---- *)
+      let eres_of st nn bytes = match st with
+        | "ok" -> Enc.EOk (n_of_int nn, bytes) | "err" -> Enc.EErr (n_of_int (max nn 0)) | _ -> Enc.EPanic in
       let (est, en, ehex) = match split ':' (field "enc=" rest) with
         | [a; b; c] -> (a, int_of_string b, c) | _ -> failwith "bad enc" in
-      let m_enc = Enc.encode_go cap p in
-      let m_enc_s = match m_enc with
-        | Enc.EOk (mn, bs) -> Printf.sprintf "ok:%s:%s" (string_of_n mn) (hex_of_bytes bs)
-        | Enc.EErr mn -> Printf.sprintf "err:%s:-" (string_of_n mn)
-        | Enc.EPanic -> "panic:0:-" in
-      let i_enc_s = Printf.sprintf "%s:%d:%s" est en ehex in
-      let enc_propfail =
-        if est = "panic" then Some "encode_total Encode panicked"
-        else if wf && est <> "ok" then Some "encode_total Encode rejected a well-formed packet"
-        else if est = "ok" && en <> ilen then Some (Printf.sprintf "len_is_written Encode wrote %d bytes, Len() is %d" en ilen)
-        else if wf && ehex <> spec_hex then Some "layout encoded bytes differ from the MQTT 3.1.1 layout"
-        else None in
-      (match enc_propfail with
-       | Some msg -> diff "propfail %s %s pkt=%s impl=%s spec=%s\n" k msg short_text
-                       (S.sub i_enc_s 0 (min 300 (S.length i_enc_s))) (S.sub spec_hex 0 (min 300 (S.length spec_hex)))
-       | None ->
-         if m_enc_s <> i_enc_s then
-           diff "diff %s enc pkt=%s model=%s impl=%s\n" k short_text
-             (S.sub m_enc_s 0 (min 300 (S.length m_enc_s))) (S.sub i_enc_s 0 (min 300 (S.length i_enc_s))));
-      (* Encode into a dirty oversized buffer *)
-      let (dst, dn, dsame, dtail) = match split ':' (field "dirty=" rest) with
-        | [a; b; c; d] -> (a, int_of_string b, c = "1", d = "1") | _ -> failwith "bad dirty" in
-      let dirty_buf = repeat_byte (byte_of_int fillb) (ilen + extra) [] in
-      let m_dirty = match Enc.encode_into dirty_buf p with
-        | Enc.BOk (mn, d) ->
-          let mn' = int_of_n mn in
-          let written = Enc.take mn d and rest' = Enc.drop mn d in
-          let same = (match m_enc with Enc.EOk (_, bs) -> bs = written | _ -> false) in
-          let tail = L.for_all (fun x -> int_of_byte x = fillb) rest' in
-          Printf.sprintf "ok:%d:%b:%b" mn' same tail
-        | Enc.BErr mn -> Printf.sprintf "err:%d:false:false" (int_of_n mn)
-        | Enc.BPanic -> "panic:0:false:false" in
-      let i_dirty = Printf.sprintf "%s:%d:%b:%b" dst dn dsame dtail in
-      if dst = "panic" then diff "propfail %s encode_total Encode into an oversized buffer panicked pkt=%s\n" k short_text
-      else if dst = "ok" && est = "ok" && not dsame then
-        diff "propfail %s wire_exact Encode into a dirty oversized buffer leaves other bytes in the first Len() bytes than Encode into a clean one pkt=%s\n" k short_text
-      else if dst = "ok" && dn <> ilen then
-        diff "propfail %s len_is_written Encode into an oversized buffer wrote %d bytes, Len() is %d pkt=%s\n" k dn ilen short_text
-      else if m_dirty <> i_dirty then diff "diff %s dirty pkt=%s model=%s impl=%s\n" k short_text m_dirty i_dirty;
-      (* Encode into Len()-1 bytes *)
-      let (sst, sn) = match split ':' (field "short=" rest) with
-        | [a; b] -> (a, int_of_string b) | _ -> failwith "bad short" in
-      let m_short = if ilen >= 1 then (match Enc.encode_go (n_of_int (ilen - 1)) p with
-          | Enc.EOk (mn, _) -> Printf.sprintf "ok:%s" (string_of_n mn)
-          | Enc.EErr mn -> Printf.sprintf "err:%s" (string_of_n mn)
-          | Enc.EPanic -> "panic:0") else "err:0" in
-      if sst <> "err" then
-        diff "propfail %s short_buffer Encode into Len()-1 bytes did not fail with an error (%s) pkt=%s\n" k sst short_text
-      else if m_short <> Printf.sprintf "%s:%d" sst sn then
-        diff "diff %s short pkt=%s model=%s impl=%s:%d\n" k short_text m_short sst sn;
-      (* Encoder.Write after a larger packet went through the pool *)
-      let wr = field "wr=" rest in
-      let (wst, whex) = match split ':' wr with [a; b] -> (a, b) | _ -> failwith "bad wr" in
-      let whex = if whex = "=" then ehex else whex in
-      let prior = repeat_byte (byte_of_int 0xee) (ilen + 64) [] in
-      let m_wr = match Enc.encoder_write prior p with
-        | Enc.XSent bs -> "ok:" ^ hex_of_bytes bs
-        | Enc.XErr -> "err:-"
-        | Enc.XPanic -> "panic:-" in
-      if wst = "panic" then diff "propfail %s wire_exact Encoder.Write panicked pkt=%s\n" k short_text
-      else if wf && (wst <> "ok" || whex <> spec_hex) then
-        diff "propfail %s wire_exact Encoder.Write put other bytes on the wire than the MQTT 3.1.1 layout pkt=%s sent=%s:%s spec=%s\n" k short_text wst
-          (S.sub whex 0 (min 300 (S.length whex))) (S.sub spec_hex 0 (min 300 (S.length spec_hex)))
-      else if wst = "ok" && est = "ok" && whex <> ehex then
-        diff "propfail %s wire_exact Encoder.Write sent other bytes than Encode produced (stale pool bytes?) pkt=%s sent=%s enc=%s\n" k short_text
-          (S.sub whex 0 (min 300 (S.length whex))) (S.sub ehex 0 (min 300 (S.length ehex)))
-      else if m_wr <> (wst ^ ":" ^ whex) then
-        diff "diff %s write pkt=%s model=%s impl=%s:%s\n" k short_text (S.sub m_wr 0 (min 300 (S.length m_wr))) wst (S.sub whex 0 (min 300 (S.length whex)));
-      (* round trip on the implementation *)
-      (match split ':' (field "rt=" rest) with
-       | rst :: rn :: rtext ->
-         let rtext = S.concat ":" rtext in
-         if wf && est = "ok" then begin
-           if rst <> "ok" then diff "propfail %s roundtrip Decode of the encoded bytes failed (%s) pkt=%s\n" k rst short_text
-           else if int_of_string rn <> en then diff "propfail %s roundtrip Decode consumed %s of %d bytes pkt=%s\n" k rn en short_text
-           else if rtext <> "=" then
-             diff "propfail %s roundtrip decoded packet differs pkt=%s decoded=%s\n" k short_text (S.sub rtext 0 (min 200 (S.length rtext)))
-         end
-       | _ -> failwith "bad rt");
+      let ebytes = if est = "ok" then bytes_of_hex ehex else [] in
+      let o_enc = eres_of est en ebytes in
+      let (l2, ast, an, ahex) = match split ':' (field "again=" rest) with
+        | [a; b; c; d] -> (int_of_string a, b, int_of_string c, d) | _ -> failwith "bad again" in
+      let o_again = eres_of ast an (if ast <> "ok" then [] else if ahex = "=" then ebytes else bytes_of_hex ahex) in
+      let (dst, dn, dhex) = match split ':' (field "dirty=" rest) with
+        | [a; b; c] -> (a, int_of_string b, c) | _ -> failwith "bad dirty" in
+      let o_dirty = match dst with
+        | "ok" -> Enc.BOk (n_of_int dn, if dhex = "=" then ebytes @ repeat_byte fill (ilen + extra - L.length ebytes) [] else bytes_of_hex dhex)
+        | "err" -> Enc.BErr (n_of_int (max dn 0)) | _ -> Enc.BPanic in
+      let shorts_s = field "short=" rest in
+      let shorts = if shorts_s = "-" then [] else L.map (fun x -> match split ':' x with
+          | [c; st; sn] -> (int_of_string c, st, int_of_string sn) | _ -> failwith "bad short") (split ',' shorts_s) in
+      let o_shorts = L.map (fun (c, st, sn) -> (n_of_int c, eres_of st sn [])) shorts in
+      let (wst, whex) = match split ':' (field "wr=" rest) with [a; b] -> (a, b) | _ -> failwith "bad wr" in
+      let o_wr = match wst with
+        | "ok" -> Enc.XSent (if whex = "=" then ebytes else bytes_of_hex whex) | "err" -> Enc.XErr | _ -> Enc.XPanic in
+      let o_cold = match split ':' (field "cold=" rest) with
+        | ["ok"; h] -> Some (Enc.XSent (if h = "=" then ebytes else bytes_of_hex h), "ok", h)
+        | ["err"; h] -> Some (Enc.XErr, "err", h) | [_; h] -> Some (Enc.XPanic, "panic", h) | _ -> None in
+      let (rst, rn, rtext) = match split ':' (field "rt=" rest) with
+        | a :: b :: c -> (a, int_of_string b, S.concat ":" c) | _ -> failwith "bad rt" in
+      let o_rt = match rst with
+        | "ok" -> Dec.DOk ((if rtext = "=" then p else packet_of_s rtext), n_of_int rn)
+        | "panic" -> Dec.DPanic | _ -> Dec.DErr (n_of_int (max rn 0)) in
+      let o = { EncJudge.o_len = n_of_int ilen; o_enc; o_len2 = n_of_int (max l2 0); o_again; o_fill = fill;
+                o_extra = n_of_int extra; o_dirty; o_shorts; o_wr; o_rt } in
+      (* ---- the judges (extracted; each proved of the model: C01_judges_sound) ---- *)
+      let verdicts = [
+        ("encode_total", EncJudge.j_encode_total p o,
+           (fun () -> Printf.sprintf "Encode panicked or rejected a well-formed packet: enc=%s again=%s dirty=%s short=%s" est ast dst shorts_s));
+        ("len_spec", EncJudge.j_len_spec p o, (fun () -> Printf.sprintf "Len()=%d, the MQTT 3.1.1 layout of the packet occupies %s bytes" ilen (string_of_n (WF.total_len p))));
+        ("len_is_written", EncJudge.j_len_is_written p o,
+           (fun () -> Printf.sprintf "Len()=%d (again %d) but Encode returned %d / %d bytes (second call %d, oversized buffer %d)" ilen l2 en (L.length ebytes) an dn));
+        ("layout", EncJudge.j_layout p o,
+           (fun () -> Printf.sprintf "encoded bytes differ from the MQTT 3.1.1 layout: impl=%s:%d:%s again=%s:%s spec=%s" est en (cut ehex) ast (cut ahex)
+             (cut (hex_of_bytes (WireSpec.wire_spec p)))));
+        ("wire_exact", EncJudge.j_dirty p o,
+           (fun () -> Printf.sprintf "Encode into a dirty buffer of Len()+%d bytes (fill %02x): first Len() bytes are not the layout or bytes beyond were written: %s:%d:%s" extra fillb dst dn (cut dhex)));
+        ("short_buffer", EncJudge.j_short p o, (fun () -> Printf.sprintf "Encode into fewer than Len()=%d bytes did not fail with an error: %s" ilen shorts_s));
+        ("wire_exact", EncJudge.j_wire_exact p o,
+           (fun () -> Printf.sprintf "Encoder.Write put other bytes on the wire than the layout / than Len() bytes (stale pool bytes?): sent=%s:%s enc=%s spec=%s" wst (cut whex) (cut ehex)
+             (cut (hex_of_bytes (WireSpec.wire_spec p)))));
+        ("wire_exact", (match o_cold with None -> true | Some (x, _, _) -> EncJudge.j_wire_exact p { o with EncJudge.o_wr = x }),
+           (fun () -> match o_cold with Some (_, cst, ch) ->
+              Printf.sprintf "Encoder.Write with an empty buffer pool put other bytes on the wire than the layout: sent=%s:%s spec=%s" cst (cut ch) (cut (hex_of_bytes (WireSpec.wire_spec p)))
+            | None -> ""));
+        ("roundtrip", (est <> "ok") || EncJudge.j_roundtrip p o,
+           (fun () -> Printf.sprintf "Decode of the encoded bytes: %s consumed %d of %d decoded=%s" rst rn en (S.sub rtext 0 (min 200 (S.length rtext))))) ] in
+      let failed = L.filter (fun (_, ok, _) -> not ok) verdicts in
+      L.iter (fun (clause, _, msg) -> incr bad; Printf.printf "propfail %s %s %s pkt=%s\n" k clause (msg ()) short_text) failed;
+      (* ---- the tie: model vs implementation on everything observed ---- *)
+      if failed = [] then begin
+        let s_eres = function
+          | Enc.EOk (mn, bs) -> Printf.sprintf "ok:%s:%s" (string_of_n mn) (hex_of_bytes bs)
+          | Enc.EErr mn -> Printf.sprintf "err:%s" (string_of_n mn) | Enc.EPanic -> "panic" in
+        let mlen = Enc.len_go p in
+        if string_of_n mlen <> ilen_s then diff "diff %s len model=%s impl=%d pkt=%s\n" k (string_of_n mlen) ilen short_text;
+        let m_enc = s_eres (Enc.encode_go (n_of_int ilen) p) in
+        let i_enc = s_eres o_enc in
+        if m_enc <> i_enc then diff "diff %s enc pkt=%s model=%s impl=%s\n" k short_text (cut m_enc) (cut i_enc);
+        (* large packets (> 40000 bytes): the tie on Len and Encode only (the judges above saw every observation) *)
+        if ilen <= 40000 then begin
+        let dirty_buf = repeat_byte fill (ilen + extra) [] in
+        let s_bres = function
+          | Enc.BOk (mn, d) -> Printf.sprintf "ok:%s:%s" (string_of_n mn) (hex_of_bytes d)
+          | Enc.BErr mn -> Printf.sprintf "err:%s" (string_of_n mn) | Enc.BPanic -> "panic" in
+        let m_dirty = s_bres (Enc.encode_into dirty_buf p) and i_dirty = s_bres o_dirty in
+        if m_dirty <> i_dirty then diff "diff %s dirty pkt=%s model=%s impl=%s\n" k short_text (cut m_dirty) (cut i_dirty);
+        L.iter (fun (c, st, sn) ->
+            let m = s_eres (Enc.encode_go (n_of_int c) p) and i = s_eres (eres_of st sn []) in
+            let strip x = match split ':' x with [a; b; _] -> a ^ ":" ^ b | _ -> x in
+            if strip m <> strip i then diff "diff %s short cap=%d pkt=%s model=%s impl=%s\n" k c short_text (cut m) (cut i)) shorts;
+        let prior = repeat_byte (byte_of_int 0xee) (ilen + 64) [] in
+        let s_x = function Enc.XSent bs -> "ok:" ^ hex_of_bytes bs | Enc.XErr -> "err" | Enc.XPanic -> "panic" in
+        let m_wr = s_x (Enc.encoder_write prior p) and i_wr = s_x o_wr in
+        if m_wr <> i_wr then diff "diff %s write pkt=%s model=%s impl=%s\n" k short_text (cut m_wr) (cut i_wr)
+        end
+      end;
+      (* remember the case for the stream batches *)
+      if est = "ok" && en < 70000 then Hashtbl.replace done_cases k (p, ebytes);
       (* coverage class *)
       let rl = int_of_n (WF.body_len p) in
       let key = Printf.sprintf "%s|%d|%s|%s|%s" tname (varint_class rl) (flag_row p) (if wf then "wf" else "nwf") est in
       if not (Hashtbl.mem seen key) then (Hashtbl.replace seen key (); incr distinct)
+      end
+    | "batch" :: ks :: res :: _ ->
+      incr n;
+      let ids = split ',' ks in
+      if L.for_all (Hashtbl.mem done_cases) ids then begin
+        let items = L.map (Hashtbl.find done_cases) ids in
+        let (st, h) = match split ':' res with [a; b] -> (a, b) | _ -> failwith "bad batch" in
+        let wire = if h = "=" then L.concat (L.map snd items) else bytes_of_hex h in
+        if st <> "ok" || not (EncJudge.j_stream (L.map fst items) wire) then begin
+          incr bad;
+          Printf.printf "propfail batch wire_exact ids=%s written through one Encoder (asynchronously, then flushed): %s, the wire does not carry the concatenation of their layouts: %s\n"
+            ks st (S.sub h 0 (min 300 (S.length h))) end
+        else if h <> "=" then diff "diff batch %s wire differs from the concatenation of the single encodings\n" ks
       end
     | "hv" :: num :: l :: _ ->
       incr n;
@@ -212,7 +221,15 @@ let run path =
            | Enc.BErr mn -> Printf.sprintf "err:%s" (string_of_n mn)
            | Enc.BPanic -> "panic" in
          let i = canon_helper res in
-         if m <> i then diff "diff he encodeHeader type=%s flags=%s rl=%s tl=%s cap=%s model=%s impl=%s\n" t flags rl tl cap m i)
+         let observed = match split ':' res with
+           | ["ok"; hn; h] -> Enc.BOk (n_of_string hn, bytes_of_hex h)
+           | "err" :: hn :: _ -> Enc.BErr (n_of_string hn)
+           | _ -> Enc.BPanic in
+         if not (EncJudge.j_header ty (n_of_string flags) (n_of_string rl) (n_of_string tl) (n_of_int c) observed) then begin
+           incr bad;
+           Printf.printf "propfail he layout encodeHeader type=%s flags=%s rl=%s tl=%s cap=%s: %s, the fixed header of MQTT 2.2 is %s\n" t flags rl tl cap
+             (S.sub i 0 (min 80 (S.length i))) (hex_of_bytes (EncJudge.header_bytes ty (n_of_string flags) (n_of_string rl))) end
+         else if m <> i then diff "diff he encodeHeader type=%s flags=%s rl=%s tl=%s cap=%s model=%s impl=%s\n" t flags rl tl cap m i)
     | "hl" :: cap :: len :: seed :: res :: _ ->
       incr n;
       let c = int_of_string cap and l = int_of_string len and s = int_of_string seed in
